@@ -43,6 +43,11 @@ func c16(c *q.Ctx) {
 		c.Sites += n
 		c.Check(n == 1, "K5", "bcs/consensus/pow::GetCompact", "the mantissa is renormalised on its sign bit (mask 0x00800000)", "-", fmt.Sprintf("found %d mask test(s)", n))
 	}
+	// election: a candidate enters the ballot list only with a POSITIVE ballot sum (a candidate whose votes were all
+	// revoked keeps a row of zeros and must not be seated)
+	if tk := c.Fn("bcs/consensus/tdpos::(*tdposSchedule).calTopKNominator"); tk != nil {
+		c.Effect(tk, q.Eff{Spec: "append", Arg: 1, Glob: "[local<termBallots>]", Req: []q.Cond{{Canon: "(0 < (* + *))", Sense: true}}, Why: "only candidates with ballots above zero are ranked", Rule: "K5"})
+	}
 	blockAgentHashes(c)
 	// ---- TDPoS
 	td := c.Fn("bcs/consensus/tdpos::(*tdposConsensus).CheckMinerMatch")
